@@ -597,6 +597,31 @@ func rewriteCall(p *pkgInfo, c *ast.CallExpr, off func(token.Pos) int, src []byt
 	full := obj.FullName()
 	recvText := func() string {
 		x := string(src[off(sel.X.Pos()):off(sel.X.End())])
+		// a method promoted through embedding: name the embedded field explicitly so that
+		// the wrapper receives the *sync.Mutex / *sync.RWMutex / *sync.Once itself
+		if s, ok := p.info.Selections[sel]; ok && len(s.Index()) > 1 {
+			t := s.Recv()
+			path := ""
+			for _, idx := range s.Index()[:len(s.Index())-1] {
+				if pt, ok := t.Underlying().(*types.Pointer); ok {
+					t = pt.Elem()
+				}
+				st, ok := t.Underlying().(*types.Struct)
+				if !ok {
+					path = ""
+					break
+				}
+				f := st.Field(idx)
+				path += "." + f.Name()
+				t = f.Type()
+			}
+			if path != "" {
+				if _, isPtr := t.Underlying().(*types.Pointer); isPtr {
+					return "(" + x + ")" + path
+				}
+				return "&(" + x + ")" + path
+			}
+		}
 		if tv, ok := p.info.Types[sel.X]; ok {
 			if _, isPtr := tv.Type.Underlying().(*types.Pointer); isPtr {
 				return x
